@@ -646,3 +646,33 @@ def case_labels_program(rng):
         lines.append("  " * d + "end;")
     lines.append("end;")
     return "\n".join(lines) + "\n", lens
+
+
+SWEEP_CODEPOINTS = ([c for c in range(0x00, 0x21) if c not in (0x0A, 0x0D)] + list(range(0x7F, 0xA1)) +
+                    [0xAD, 0x1680, 0x180E] + list(range(0x2000, 0x2010)) + [0x2028, 0x2029, 0x202F, 0x205F, 0x2060,
+                     0x2E80, 0x3000, 0x3001, 0xE000, 0xFEFF, 0xFFFD, 0xFFFE, 0x10000, 0xE0020, 0x41, 0x5F, 0xE9, 0x3042])
+
+SWEEP_SHAPES = [  # (name, template, well-formed for every code point)
+    ("lc-end", "Foo; //x%s\nBar;\n", True), ("lc-end-blank", "Foo; //x%s \t\nBar;\n", True), ("lc-start", "Foo; //%sx\nBar;\n", True),
+    ("lc-only", "//%s\nFoo;\n", True), ("lc-doc", "///%s\nFoo;\n", True), ("lc-mid", "Foo; // a%sb\nBar;\n", True),
+    ("bc-end", "Foo; {x%s} Bar;\n", True), ("bc-own", "{%s}\nFoo;\n", True), ("pc-end", "Foo; (*x%s*) Bar;\n", True),
+    ("dir-end", "{$IFDEF X%s}\nFoo;\n{$ENDIF}\n", True), ("dir-name", "{$R%s+}\nFoo;\n", True),
+    ("between", "Foo%sBar;\n", False), ("spaced", "Foo %s Bar;\n", False), ("str", "S := 'a%sb';\n", True), ("str-end", "S := 'a%s';\n", True),
+    ("mlstr", "S := \'\'\'\n  a%s\n  \'\'\';\n", True), ("mlstr-blank", "S := \'\'\'\n  %s\n  \'\'\';\n", True),
+    ("eol", "Foo;%s\nBar;\n", False), ("bof", "%sFoo;\n", False), ("eof", "Foo;\n%s", False), ("indent", "begin\n%sFoo;\nend;\n", False),
+]
+
+
+def codepoint_sweep(rng=None, frac=1.0, wellformed_only=False):
+    """every code point of a table of blanks, controls, look-alike spaces and format characters in every lexical
+    position (ends and starts of the three comment forms, directives, literals, between tokens, line and file ends):
+    the positions where the rules trim, split or measure text.  returns [(kind, text)]"""
+    out = []
+    for name, tpl, wf in SWEEP_SHAPES:
+        if wellformed_only and not wf:
+            continue
+        for cp in SWEEP_CODEPOINTS:
+            if rng is not None and frac < 1.0 and rng.random() > frac:
+                continue
+            out.append(("sweep-" + name, tpl % chr(cp)))
+    return out
